@@ -160,6 +160,11 @@ def check(R, tier):
                              z3.BoolVal(not used_raw and all(e[2] == 'SHA256' for e in s.events if e[0] == 'hash-of')), decode=dec, group='matches-resolved-name')
                 if r.discr == 0:
                     t = I.deref_load(s, r.fields[('Ok', 0)])
+                    if not (isinstance(t, Obj) and 'rid' in t.d and 'nid' in t.d):
+                        # the entry returned was not taken from a role's own map through the modelled lookups (calls without a model on this path)
+                        R.obligation(f'find_target[{sh}]: the entry served is the first one in pre-order whose every delegation on the chain matches the name', s.pc,
+                                     z3.BoolVal(False), decode=dec, group='preorder-pruned', tainted=['entry obtained through unmodelled calls'])
+                        continue
                     R.obligation(f'find_target[{sh}]: the entry served is the first one in pre-order whose every delegation on the chain matches the name', s.pc,
                                  z3.And(rf, t.d['rid'] == rw, t.d['nid'] == nid), decode=dec, group='preorder-pruned')
                 else:
@@ -212,6 +217,8 @@ def check(R, tier):
                     R.obligation(f'validate[{sh}]: refused => some listed target is unreachable', s.pc, z3.Not(every), group='validate/reject-justified')
             R.reach_any(f'validate[{sh}]: refusal reachable', [s.pc for s in done if s.result.discr == 1])
             R.samples.append({'validate shape': sh, 'paths': len(done)})
+    except (AttributeError, KeyError, TypeError, IndexError) as e:
+        R.inconclusive.append('solver part stopped on a code shape the harness cannot read: ' + repr(e)[:200])
     finally:
         I.models[:] = saved
     native_validation(R, tier)
